@@ -847,16 +847,38 @@ func c03Replies(w *World, r *Report, fErr *types.Var) {
 		rd := reads[0].(*ssa.Call)
 		ev := errResult(rd)
 		n := 0
-		err := walkPaths(after(rd), nil, nil, 50000, func(path []ssa.Instruction, end pathEnd) {
-			if _, ok := path[len(path)-1].(*ssa.Return); !ok {
+		// the read may sit in a helper the step calls: then the step is walked from its entry (through its helpers) and
+		// only the paths that perform the read are looked at
+		start := after(rd)
+		inHelper := rd.Parent() != fn
+		if inHelper {
+			start = entryLoc(fn)
+		}
+		err := walkPaths(start, nil, nil, 50000, func(path []ssa.Instruction, end pathEnd) {
+			if rt, ok := path[len(path)-1].(*ssa.Return); !ok || rt.Parent() != fn {
 				return
+			}
+			if inHelper {
+				if countOn(path, func(in ssa.Instruction) bool { return in == ssa.Instruction(rd) }) == 0 {
+					return
+				}
 			}
 			// error recorded on the path (other than the read's own result)?
 			other := false
+			seenRd := !inHelper
 			forPath(path, func(i int, in ssa.Instruction) {
+				if in == ssa.Instruction(rd) {
+					seenRd = true
+				}
+				if !seenRd {
+					return
+				}
 				if st, ok := in.(*ssa.Store); ok {
-					if fa, ok := st.Addr.(*ssa.FieldAddr); ok && fieldOfAddr(fa) == fErr && st.Val != ev && resolveOn(st.Val, i, path) != ev {
-						other = true
+					if fa, ok := st.Addr.(*ssa.FieldAddr); ok && fieldOfAddr(fa) == fErr && st.Val != ev {
+						rv := resolveOn(st.Val, i, path)
+						if rv != ev && !(rv != nil && isNilConst(rv)) {
+							other = true
+						}
 					}
 				}
 			})
